@@ -1321,4 +1321,441 @@ theorem setValue_spec {s : State} (I : Inv s) (i : Nat) (v : Nat) :
           simp only [held, setObj_len]; exact heldAll_congr (fun k _ => hh k)
         rw [this]; exact I.conserve x
 
+/-! ### every operation preserves the invariant -/
+
+theorem state_given_nil (s : State) : ({ s with given := s.given ++ [] } : State) = s := by
+  cases s; simp
+
+theorem inv_step {s : State} (I : Inv s) (op : Op) : Inv (step s op).1 := by
+  cases op with
+  | ctor i =>
+      simp only [step]; split
+      · have := (ctor_spec I ‹_› {} [] (by simp) rfl (by simp) (by simp)).1
+        rw [state_given_nil] at this; exact this
+      · exact I
+  | ctorH i h =>
+      simp only [step]; split
+      · exact (ctor_spec I ‹_› { cf := 2, inl := [h, junk, junk] } [h] (by simp) rfl (by simp) (by simp)).1
+      · exact I
+  | ctorV i v =>
+      simp only [step]; split
+      · have := (ctor_spec I ‹_› { typed := true, value := v } [] (by simp) rfl (by simp) (by simp)).1
+        rw [state_given_nil] at this; exact this
+      · exact I
+  | ctorHV i h v =>
+      simp only [step]; split
+      · exact (ctor_spec I ‹_› { cf := 2, inl := [h, junk, junk], typed := true, value := v } [h] (by simp) rfl
+          (by simp) (by simp)).1
+      · exact I
+  | ctorSV i j v =>
+      simp only [step]; split
+      · split
+        · exact (move_spec I ‹_› ‹_› true v).1
+        · exact I
+      · exact I
+  | mov i j =>
+      simp only [step]; split
+      · split
+        · exact (move_spec I ‹_› ‹_› _ _).1
+        · exact I
+      · exact I
+  | movBase i j =>
+      simp only [step]; split
+      · split
+        · exact (move_spec I ‹_› ‹_› false 0).1
+        · exact I
+      · exact I
+  | merge i j =>
+      simp only [step]; split
+      · split
+        · exact I
+        · exact (merge_spec I ‹_› ‹_› ‹_›).1
+      · exact I
+  | assign i j =>
+      simp only [step]; split
+      · split
+        · exact I
+        · split
+          · exact I
+          · split
+            · exact (setValue_spec (merge_spec I ‹_› ‹_› ‹_›).1 i _).1
+            · exact (merge_spec I ‹_› ‹_› ‹_›).1
+      · exact I
+  | addH i h =>
+      simp only [step]; split
+      · exact (addH_spec I ‹_› h).1
+      · exact I
+  | pop i =>
+      simp only [step]; split
+      · split
+        · exact I
+        · exact (pop_spec I ‹_› ‹_›).1
+      · exact I
+  | clear i =>
+      simp only [step]; split
+      · exact (suspendNow_spec I ‹_›).1
+      · exact I
+  | dtor i =>
+      simp only [step]; split
+      · exact (dtor_spec I ‹_›).1
+      · exact I
+  | await i me =>
+      simp only [step]; split
+      · exact await_inv I ‹_› me
+      · exact I
+  | yield me =>
+      simp only [step]; split
+      · exact yield_inv I ‹_› me
+      · exact I
+  | size i => simp only [step]; split <;> exact I
+  | empty i => simp only [step]; split <;> exact I
+  | value i =>
+      simp only [step]; split
+      · split <;> exact I
+      · exact I
+  | finish =>
+      simp only [step]; split
+      · have := inv_flushAll I s.active
+        have e : ({ flushAll s with active := s.active } : State) = flushAll s := rfl
+        rw [e] at this; exact this
+      · exact I
+
+theorem inv_run {s : State} (I : Inv s) (ops : List Op) : Inv (run s ops) := by
+  induction ops generalizing s with
+  | nil => exact I
+  | cons op t ih => exact ih (inv_step I op)
+
+theorem run_append (s : State) (a b : List Op) : run s (a ++ b) = run (run s a) b := by
+  simp [run, List.foldl_append]
+
+theorem step_len {s : State} (I : Inv s) (op : Op) : (step s op).1.objs.length = s.objs.length := by
+  cases op with
+  | ctor i => simp only [step]; split <;> simp
+  | ctorH i h => simp only [step]; split <;> simp
+  | ctorV i v => simp only [step]; split <;> simp
+  | ctorHV i h v => simp only [step]; split <;> simp
+  | ctorSV i j v => simp only [step]; split <;> (try split) <;> simp [stepMove]
+  | mov i j => simp only [step]; split <;> (try split) <;> simp [stepMove]
+  | movBase i j => simp only [step]; split <;> (try split) <;> simp [stepMove]
+  | merge i j =>
+      simp only [step]; split
+      · split
+        · rfl
+        · exact (merge_spec I ‹_› ‹_› ‹_›).2.2.2.2.1.len
+      · rfl
+  | assign i j =>
+      simp only [step]; split
+      · split
+        · rfl
+        · split
+          · rfl
+          · have M := merge_spec I ‹s.obj i = some _› ‹s.obj j = some _› ‹_›
+            split
+            · exact ((setValue_spec M.1 i _).2.2.len).trans M.2.2.2.2.1.len
+            · exact M.2.2.2.2.1.len
+      · rfl
+  | addH i h =>
+      simp only [step]; split
+      · have H0 : HeapOk { s with given := s.given ++ [h] } := heapOk_of_eq I.heap rfl rfl rfl [] (by simp)
+        have O0 : Own { s with given := s.given ++ [h] } := own_of_eq I.own rfl rfl
+        exact (add_spec H0 O0 (s := { s with given := s.given ++ [h] }) ‹_› h).len
+      · rfl
+  | pop i => simp only [step]; split <;> (try split) <;> simp
+  | clear i =>
+      simp only [step]; split
+      · exact (suspendNow_spec I ‹_›).2.2.2.2.2.2.2
+      · rfl
+  | dtor i =>
+      simp only [step]; split
+      · exact (dtor_spec I ‹_›).2.2.2.2.2.2.2
+      · rfl
+  | await i me =>
+      simp only [step]; split
+      · rename_i o ho
+        unfold awaitObj
+        by_cases hc : o.cf / 2 = 0
+        · simp [hc]
+        · by_cases ha : s.active = true
+          · simp only [hc, ha, if_true, if_false]
+            exact (awaitQueue_spec I ha ho hc me).2.2.2.2.2.2.2.2
+          · have ha' : s.active = false := by simpa using ha
+            simp only [hc, ha', if_false, Bool.false_eq_true]
+            exact (awaitQueue_spec (inv_active I) rfl (s := { s with active := true }) ho hc me).2.2.2.2.2.2.2.2
+      · rfl
+  | yield me => simp only [step]; split <;> rfl
+  | size i => simp only [step]; split <;> rfl
+  | empty i => simp only [step]; split <;> rfl
+  | value i => simp only [step]; split <;> (try split) <;> rfl
+  | finish => simp only [step]; split <;> rfl
+
+/-! ### end of life -/
+
+theorem run_len {s : State} (I : Inv s) (ops : List Op) : (run s ops).objs.length = s.objs.length := by
+  induction ops generalizing s with
+  | nil => rfl
+  | cons op t ih => exact (ih (inv_step I op)).trans (step_len I op)
+
+theorem dtor_none {s : State} (I : Inv s) (i : Nat) :
+    (step s (Op.dtor i)).1.obj i = none ∧ ∀ k, k ≠ i → (step s (Op.dtor i)).1.obj k = s.obj k := by
+  simp only [step]
+  split
+  · have D := dtor_spec I ‹_›
+    exact ⟨D.2.1, D.2.2.2.1⟩
+  · exact ⟨‹_›, fun _ _ => rfl⟩
+
+theorem run_dtors {s : State} (I : Inv s) (m : Nat) :
+    Inv (run s ((List.range m).map Op.dtor))
+    ∧ (∀ k, k < m → (run s ((List.range m).map Op.dtor)).obj k = none)
+    ∧ (∀ k, m ≤ k → (run s ((List.range m).map Op.dtor)).obj k = s.obj k) := by
+  induction m with
+  | zero => exact ⟨I, fun k hk => by omega, fun _ _ => rfl⟩
+  | succ m ih =>
+      obtain ⟨I1, h1, h2⟩ := ih
+      rw [List.range_succ, List.map_append, run_append]
+      generalize run s ((List.range m).map Op.dtor) = t at I1 h1 h2
+      have D := dtor_none I1 m
+      have e : run t (List.map Op.dtor [m]) = (step t (Op.dtor m)).1 := rfl
+      rw [e]
+      refine ⟨inv_step I1 _, ?_, ?_⟩
+      · intro k hk
+        by_cases ek : k = m
+        · rw [ek]; exact D.1
+        · rw [D.2 k ek]; exact h1 k (by omega)
+      · intro k hk
+        rw [D.2 k (by omega)]; exact h2 k (by omega)
+
+theorem held_nil_of_all_none {s : State} (h : ∀ k, s.obj k = none) : held s = [] := by
+  simp only [held]
+  generalize s.objs.length = m
+  induction m with
+  | zero => rfl
+  | succ m ih => simp [heldAll, ih, handles_none (h m)]
+
+/-- end of life: every object destroyed, the running coroutine finished -/
+theorem end_state {s : State} (I : Inv s) :
+    Inv (run s (endOps s.objs.length)) ∧ (∀ k, (run s (endOps s.objs.length)).obj k = none)
+    ∧ (run s (endOps s.objs.length)).queue = [] := by
+  unfold endOps
+  rw [run_append]
+  obtain ⟨I1, h1, h2⟩ := run_dtors I s.objs.length
+  have hl := run_len I ((List.range s.objs.length).map Op.dtor)
+  generalize run s ((List.range s.objs.length).map Op.dtor) = t at I1 h1 h2 hl
+  have hnone : ∀ k, t.obj k = none := by
+    intro k
+    by_cases hk : k < s.objs.length
+    · exact h1 k hk
+    · exact obj_ge (by omega)
+  have e : run t [Op.finish] = (step t Op.finish).1 := rfl
+  rw [e]
+  refine ⟨inv_step I1 _, ?_, ?_⟩
+  · intro k; simp only [step]; split <;> exact hnone k
+  · simp only [step]; split
+    · rfl
+    · exact I1.idle (by simpa using ‹¬ t.active = true›)
+
+/-! ### no allocation while the count stays within the inline capacity -/
+theorem addAll_inline {s : State} {i : Nat} {o : Obj} (hi : s.obj i = some o) (hf : o.cf % 2 = 0)
+    (hs : List Ptr) (hc : o.cf / 2 + hs.length ≤ inlineCount) :
+    (addAll s i hs).trace = s.trace ∧ (addAll s i hs).mem = s.mem ∧ (addAll s i hs).live = s.live
+    ∧ ∃ o', (addAll s i hs).obj i = some o' ∧ o'.cf = o.cf + 2 * hs.length := by
+  induction hs generalizing s o with
+  | nil => exact ⟨rfl, rfl, rfl, o, hi, by simp⟩
+  | cons h t ih =>
+      simp only [List.length_cons] at hc
+      have hlt : o.cf / 2 < inlineCount := by omega
+      have hnf : ¬ o.cf % 2 = 1 := by omega
+      have e : add s i h = addInl s i o h := by simp [add, hi, addObj, hnf, hlt]
+      have hil := obj_lt hi
+      have hi1 : (add s i h).obj i = some { o with inl := o.inl.set (o.cf / 2) h, cf := o.cf + 2 } := by
+        rw [e]; simp only [addInl]; rw [obj_setObj _ i _ i hil]; simp
+      have r := ih hi1 (by show (o.cf + 2) % 2 = 0; omega) (by show (o.cf + 2) / 2 + t.length ≤ inlineCount; omega)
+      obtain ⟨r1, r2, r3, o', r4, r5⟩ := r
+      have e1 : (add s i h).trace = s.trace := by rw [e]; rfl
+      have e2 : (add s i h).mem = s.mem := by rw [e]; rfl
+      have e3 : (add s i h).live = s.live := by rw [e]; rfl
+      refine ⟨by simp only [addAll, List.foldl_cons] at r1 ⊢; rw [r1, e1],
+              by simp only [addAll, List.foldl_cons] at r2 ⊢; rw [r2, e2],
+              by simp only [addAll, List.foldl_cons] at r3 ⊢; rw [r3, e3], o', r4, ?_⟩
+      rw [r5]; show o.cf + 2 + 2 * t.length = o.cf + 2 * (t.length + 1); omega
+
+/-! ### the attached value -/
+
+/-- objects present before and after keep their type and value -/
+def ValFrame (s s' : State) : Prop :=
+  ∀ k o o', s.obj k = some o → s'.obj k = some o' → o'.typed = o.typed ∧ o'.value = o.value
+
+theorem ValFrame.refl (s : State) : ValFrame s s := by
+  intro k o o' h h'; rw [h] at h'; cases h'; exact ⟨rfl, rfl⟩
+
+theorem valFrame_of_obj {s s' : State} (h : ∀ k, s'.obj k = s.obj k) : ValFrame s s' := by
+  intro k o o' h1 h2; rw [h k, h1] at h2; cases h2; exact ⟨rfl, rfl⟩
+
+/-- one slot changes to an object with the same type and value (or the slot was empty / becomes empty) -/
+theorem valFrame_of_slot {s s' : State} {i : Nat} (x : Option Obj)
+    (hobj : ∀ k, s'.obj k = if k = i then x else s.obj k)
+    (hx : ∀ o o', s.obj i = some o → x = some o' → o'.typed = o.typed ∧ o'.value = o.value) : ValFrame s s' := by
+  intro k o o' h1 h2
+  rw [hobj k] at h2
+  by_cases e : k = i
+  · subst e; simp only [if_true] at h2; exact hx o o' h1 h2
+  · simp only [e, if_false] at h2; rw [h1] at h2; cases h2; exact ⟨rfl, rfl⟩
+
+theorem step_value_frame {s : State} (I : Inv s) (op : Op) :
+    ValFrame s (step s op).1 ∨
+    ∃ i j oi oj, op = Op.assign i j ∧ s.obj i = some oi ∧ s.obj j = some oj ∧ oi.typed = true ∧ oj.typed = true
+      ∧ (∀ k, k ≠ i → ∀ o o', s.obj k = some o → (step s op).1.obj k = some o' → o'.typed = o.typed ∧ o'.value = o.value)
+      ∧ ∃ oi', (step s op).1.obj i = some oi' ∧ oi'.typed = true ∧ oi'.value = oj.value := by
+  have ctor_case : ∀ (s0 : State) (i : Nat) (o0 : Obj), s0.objs = s.objs → vacant s i = true →
+      ValFrame s (setObj s0 i (some o0)) := by
+    intro s0 i o0 h0 hv
+    obtain ⟨hil, hin⟩ := vacant_iff.1 hv
+    refine valFrame_of_slot (some o0) (fun k => ?_) (fun o o' h _ => by rw [hin] at h; cases h)
+    rw [obj_setObj _ i _ k (by rw [h0]; exact hil)]; simp [State.obj, h0]
+  have move_case : ∀ (i j : Nat) (oj : Obj) (t : Bool) (v : Nat), vacant s i = true → s.obj j = some oj →
+      ValFrame s (stepMove s i j t v oj) := by
+    intro i j oj t v hv hj
+    obtain ⟨hil, hin⟩ := vacant_iff.1 hv
+    have hjl := obj_lt hj
+    intro k o o' h1 h2
+    simp only [stepMove] at h2
+    rw [obj_setObj _ j _ k (by simpa using hjl), obj_setObj _ i _ k hil] at h2
+    by_cases ekj : k = j
+    · subst ekj; simp only [if_true] at h2; rw [hj] at h1; cases h1; cases h2; exact ⟨rfl, rfl⟩
+    · by_cases eki : k = i
+      · subst eki; rw [hin] at h1; cases h1
+      · simp only [ekj, eki, if_false] at h2; rw [h1] at h2; cases h2; exact ⟨rfl, rfl⟩
+  have merge_case : ∀ (i j : Nat) (oi oj : Obj), s.obj i = some oi → s.obj j = some oj → i ≠ j →
+      ValFrame s (stepMerge s i j oj) := by
+    intro i j oi oj hi hj hij
+    obtain ⟨-, -, -, -, -, ⟨oi', e1, e2, e3⟩, ej, eo⟩ := merge_spec I hi hj hij
+    intro k o o' h1 h2
+    by_cases eki : k = i
+    · subst eki; rw [hi] at h1; cases h1; rw [e1] at h2; cases h2; exact ⟨e2, e3⟩
+    · by_cases ekj : k = j
+      · subst ekj; rw [hj] at h1; cases h1; rw [ej] at h2; cases h2; exact ⟨rfl, rfl⟩
+      · rw [eo k eki ekj, h1] at h2; cases h2; exact ⟨rfl, rfl⟩
+  cases op with
+  | ctor i => left; simp only [step]; split; exact ctor_case s i _ rfl ‹_›; exact ValFrame.refl s
+  | ctorH i h => left; simp only [step]; split; exact ctor_case _ i _ rfl ‹_›; exact ValFrame.refl s
+  | ctorV i v => left; simp only [step]; split; exact ctor_case s i _ rfl ‹_›; exact ValFrame.refl s
+  | ctorHV i h v => left; simp only [step]; split; exact ctor_case _ i _ rfl ‹_›; exact ValFrame.refl s
+  | ctorSV i j v =>
+      left; simp only [step]; split
+      · split
+        · exact move_case i j _ true v ‹_› ‹_›
+        · exact ValFrame.refl s
+      · exact ValFrame.refl s
+  | mov i j =>
+      left; simp only [step]; split
+      · split
+        · exact move_case i j _ _ _ ‹_› ‹_›
+        · exact ValFrame.refl s
+      · exact ValFrame.refl s
+  | movBase i j =>
+      left; simp only [step]; split
+      · split
+        · exact move_case i j _ false 0 ‹_› ‹_›
+        · exact ValFrame.refl s
+      · exact ValFrame.refl s
+  | merge i j =>
+      left; simp only [step]; split
+      · split
+        · exact ValFrame.refl s
+        · exact merge_case i j _ _ ‹_› ‹_› ‹_›
+      · exact ValFrame.refl s
+  | assign i j =>
+      simp only [step]; split
+      · rename_i oi oj hi hj
+        split
+        · left; exact ValFrame.refl s
+        · rename_i hij
+          split
+          · left; exact ValFrame.refl s
+          · rename_i hcomp
+            split
+            · rename_i hti
+              have htj : oj.typed = true := by
+                cases h : oj.typed with
+                | true => rfl
+                | false => simp [hti, h] at hcomp
+              right
+              have M := merge_case i j oi oj hi hj hij
+              obtain ⟨IM, -, -, -, -, ⟨oi', e1, e2, e3⟩, -, -⟩ := merge_spec I hi hj hij
+              have hil : i < (stepMerge s i j oj).objs.length := obj_lt e1
+              have hobj : ∀ k, (setValue (stepMerge s i j oj) i oj.value).obj k
+                  = if k = i then some { oi' with value := oj.value } else (stepMerge s i j oj).obj k := by
+                intro k; simp only [setValue, e1]; exact obj_setObj _ i _ k hil
+              refine ⟨i, j, oi, oj, rfl, hi, hj, hti, htj, ?_, { oi' with value := oj.value }, by rw [hobj]; simp, ?_, rfl⟩
+              · intro k hk o o' h1 h2
+                rw [hobj k, if_neg hk] at h2
+                exact M k o o' h1 h2
+              · show oi'.typed = true; rw [e2]; exact hti
+            · left; exact merge_case i j oi oj hi hj hij
+      · left; exact ValFrame.refl s
+  | addH i h =>
+      left; simp only [step]; split
+      · rename_i o hi
+        obtain ⟨-, -, -, ⟨o', e1, e2, e3⟩, eo⟩ := addH_spec I hi h
+        intro k o1 o1' h1 h2
+        by_cases ek : k = i
+        · subst ek; rw [hi] at h1; cases h1; rw [e1] at h2; cases h2; exact ⟨e2, e3⟩
+        · rw [eo k ek, h1] at h2; cases h2; exact ⟨rfl, rfl⟩
+      · exact ValFrame.refl s
+  | pop i =>
+      left; simp only [step]; split
+      · rename_i o hi
+        split
+        · exact ValFrame.refl s
+        · refine valFrame_of_slot (i := i) (some { o with cf := o.cf - 2 }) (fun k => ?_) ?_
+          · exact obj_setObj s i _ k (obj_lt hi)
+          · intro o1 o1' h1 h2; rw [hi] at h1; cases h1; cases h2; exact ⟨rfl, rfl⟩
+      · exact ValFrame.refl s
+  | clear i =>
+      left; simp only [step]; split
+      · rename_i o hi
+        refine valFrame_of_slot (some { o with cf := 0 }) (suspendNow_spec I hi).2.2.2.2.2.1 ?_
+        intro o1 o1' h1 h2; rw [hi] at h1; cases h1; cases h2; exact ⟨rfl, rfl⟩
+      · exact ValFrame.refl s
+  | dtor i =>
+      left; simp only [step]; split
+      · rename_i o hi
+        have D := dtor_spec I hi
+        refine valFrame_of_slot (i := i) none (fun k => ?_) (fun _ _ _ h => by cases h)
+        by_cases ek : k = i
+        · subst ek; simp [D.2.1]
+        · simp [ek, D.2.2.2.1 k ek]
+      · exact ValFrame.refl s
+  | await i me =>
+      left; simp only [step]; split
+      · rename_i o hi
+        unfold awaitObj
+        by_cases hc : o.cf / 2 = 0
+        · simp only [hc, if_true]; exact ValFrame.refl s
+        · have hx : ∀ o1 o1', s.obj i = some o1 → some { o with cf := 0 } = some o1' →
+              o1'.typed = o1.typed ∧ o1'.value = o1.value := by
+            intro o1 o1' h1 h2; rw [hi] at h1; cases h1; cases h2; exact ⟨rfl, rfl⟩
+          by_cases ha : s.active = true
+          · simp only [hc, ha, if_true, if_false]
+            exact valFrame_of_slot (some { o with cf := 0 }) (awaitQueue_spec I ha hi hc me).2.2.2.2.2.2.1 hx
+          · have ha' : s.active = false := by simpa using ha
+            simp only [hc, ha', if_false, Bool.false_eq_true]
+            exact valFrame_of_slot (some { o with cf := 0 })
+              (awaitQueue_spec (inv_active I) rfl (s := { s with active := true }) hi hc me).2.2.2.2.2.2.1 hx
+      · exact ValFrame.refl s
+  | yield me => left; simp only [step]; split <;> exact valFrame_of_obj (fun _ => rfl)
+  | size i => left; simp only [step]; split <;> exact ValFrame.refl s
+  | empty i => left; simp only [step]; split <;> exact ValFrame.refl s
+  | value i => left; simp only [step]; split <;> (try split) <;> exact ValFrame.refl s
+  | finish => left; simp only [step]; split <;> exact valFrame_of_obj (fun _ => rfl)
+
+theorem idxOf_append_self (l : List Ptr) (x : Ptr) (h : x ∉ l) : (l ++ [x]).idxOf x = l.length := by
+  induction l with
+  | nil => simp
+  | cons y t ih =>
+      have hy : ¬ y = x := fun e => h (by simp [e])
+      have ht : x ∉ t := fun e => h (by simp [e])
+      simp only [List.cons_append, List.idxOf_cons, List.length_cons]
+      have : (y == x) = false := by simpa using hy
+      simp [this, ih ht]
+
 end Cocls.SP
